@@ -108,7 +108,10 @@ fn hashed_sets(k: &SignedSecretKey, which: usize) -> Vec<Subpacket> {
             kf.set_certify(true);
             vec![ct, fp, Subpacket::regular(SubpacketData::KeyFlags(kf)).unwrap(), Subpacket::critical(SubpacketData::IsPrimary(true)).unwrap(),
                  Subpacket::regular(SubpacketData::PolicyURI("https://example.org/\u{e9}".into())).unwrap(),
-                 Subpacket::regular(SubpacketData::PreferredHashAlgorithms(vec![HashAlgorithm::Sha512, HashAlgorithm::Sha256].into())).unwrap()]
+                 Subpacket::regular(SubpacketData::PreferredHashAlgorithms(vec![HashAlgorithm::Sha512, HashAlgorithm::Sha256].into())).unwrap(),
+                 // subpackets of types this implementation does not interpret are hashed like any other (RFC 9580 5.2.4: the whole hashed area)
+                 Subpacket::regular(SubpacketData::Other(38, vec![1u8, 2, 3, 4, 5].into())).unwrap(),
+                 Subpacket::regular(SubpacketData::Experimental(101, vec![9u8, 8, 7].into())).unwrap()]
         }
         3 => vec![ct, fp, Subpacket::regular(SubpacketData::PolicyURI("x".repeat(60000))).unwrap()],
         _ => vec![ct, fp, Subpacket::regular(SubpacketData::PolicyURI("y".repeat(70000))).unwrap()], // only fits a v6 area
@@ -546,7 +549,7 @@ pub fn run(cases_path: &str, out_path: &str, tier: &str, seed: u64, which: &str)
                     let other = corpus.iter().filter_map(|c| c.2.as_ref()).find(|o| o.fingerprint() != fp).ok_or("no second key")?;
                     let opub = other.to_public_key();
                     let halg = sec.primary_key.hash_alg_pub();
-                    let check_sig = |sig: &Signature, what: &str, value: &str| -> Result<(), String> {
+                    let check_sig_of = |sig: &Signature, what: &str, value: &str, ifp: &Vec<u8>, ikid: &Vec<u8>| -> Result<(), String> {
                         // subpacket areas re-read from the serialised packet by the independent deframer + a minimal subpacket walker
                         let bytes = Packet::from(sig.clone()).to_bytes().map_err(|x| x.to_string())?;
                         let body = deframe_stream(&bytes)?.remove(0).body;
@@ -573,6 +576,19 @@ pub fn run(cases_path: &str, out_path: &str, tier: &str, seed: u64, which: &str)
                         }
                         Ok(())
                     };
+                    let check_sig = |sig: &Signature, what: &str, value: &str| check_sig_of(sig, what, value, &ifp, &ikid);
+                    // a freshly generated certificate of this version with a signing subkey (for the "generated_*" sites)
+                    let gen_cert = {
+                        let version = if v6 { KeyVersion::V6 } else { KeyVersion::V4 };
+                        let mut sk = pgp::composed::SubkeyParamsBuilder::default();
+                        sk.version(version).key_type(if v6 { pgp::composed::KeyType::Ed25519 } else { pgp::composed::KeyType::Ed25519Legacy }).can_sign(true);
+                        let mut kp = pgp::composed::SecretKeyParamsBuilder::default();
+                        kp.version(version).key_type(if v6 { pgp::composed::KeyType::Ed25519 } else { pgp::composed::KeyType::Ed25519Legacy }).can_certify(true).can_sign(true)
+                            .primary_user_id("generated <g@example.org>".into()).subkeys(vec![sk.build().map_err(|x| x.to_string())?]);
+                        kp.build().map_err(|x| x.to_string())?.generate(rng(seed ^ 0x13)).map_err(e)?
+                    };
+                    let (gfp, gkid) = indep_identity(rl, &gen_cert.primary_key.public_key().to_bytes().map_err(e)?)?;
+                    let (sfp, skid) = indep_identity(rl, &gen_cert.secret_subkeys[0].key.public_key().to_bytes().map_err(e)?)?;
                     for site in rl["sites"].as_array().unwrap() {
                         let (sname, value) = (site["site"].as_str().unwrap(), site["value"].as_str().unwrap());
                         let fail = |m: String| format!("site {sname}: {m}");
@@ -593,6 +609,18 @@ pub fn run(cases_path: &str, out_path: &str, tier: &str, seed: u64, which: &str)
                                 let su = uat.sign_third_party(rng(seed), &sec.primary_key, &Password::empty(), &opub.primary_key, SignatureType::CertPositive).map_err(e)?;
                                 check_sig(&su.signatures[0], sname.split('.').nth(1).unwrap(), value).map_err(fail)?;
                                 su.verify_third_party(&opub.primary_key, &pubk.primary_key).map_err(|x| fail(format!("lookup by embedded issuer fails: {x}")))?;
+                            }
+                            "generated_self_signatures" => {
+                                let sigs: Vec<&Signature> = gen_cert.details.direct_signatures.iter().chain(gen_cert.details.users.iter().flat_map(|u| u.signatures.iter())).collect();
+                                if sigs.is_empty() { return Err(fail("no self-signature on a generated certificate".into())); }
+                                for sg in sigs { check_sig_of(sg, sname.split('.').nth(1).unwrap(), value, &gfp, &gkid).map_err(fail)?; }
+                            }
+                            "generated_subkey_binding" => {
+                                check_sig_of(&gen_cert.secret_subkeys[0].signatures[0], sname.split('.').nth(1).unwrap(), value, &gfp, &gkid).map_err(fail)?;
+                            }
+                            "generated_back_signature" => {
+                                let back = gen_cert.secret_subkeys[0].signatures[0].embedded_signature().ok_or("signing subkey without embedded back signature")?;
+                                check_sig_of(&back, sname.split('.').nth(1).unwrap(), value, &sfp, &skid).map_err(fail)?;
                             }
                             "ops_v3" | "ops_v6" => {
                                 let custom = sname.ends_with("custom_subpackets");
@@ -717,6 +745,40 @@ pub fn run(cases_path: &str, out_path: &str, tier: &str, seed: u64, which: &str)
                 }
             }
         });
+        // the identity of a key does not depend on how its numbers were padded on the wire: foreign key packets whose last MPI carries
+        // 0, 1, 2 or 5 superfluous leading zero octets are the same key (algorithms whose parameters are kept as plain MPIs included)
+        if let Some(rl) = rule(4) {
+            for (alg, nmpis) in [(16u8, 3usize), (17, 4), (1, 2)] {
+                nontrivial.fetch_add(1, std::sync::atomic::Ordering::Relaxed);
+                let r = guard(|| -> Result<(), String> {
+                    use rand::RngCore;
+                    let mut head = vec![4u8, 0x5f, 0, 0, 0, alg];
+                    let mut last = Vec::new();
+                    for i in 0..nmpis {
+                        let mut v = vec![0u8; if alg == 17 && i == 1 { 32 } else { 128 }];
+                        rng(seed ^ 0x13E0 ^ (alg as u64) << 8 ^ i as u64).fill_bytes(&mut v);
+                        v[0] |= 0x80;
+                        let l = v.len() - 1;
+                        v[l] |= 1;
+                        if i + 1 == nmpis { last = v; } else { head.extend_from_slice(&((v.len() * 8) as u16).to_be_bytes()); head.extend_from_slice(&v); }
+                    }
+                    let body_with = |z: usize| { let mut b = head.clone(); b.extend_from_slice(&((last.len() * 8 + 8 * z) as u16).to_be_bytes()); b.extend(std::iter::repeat(0u8).take(z)); b.extend_from_slice(&last); b };
+                    let (want_fp, want_id) = indep_identity(&rl, &body_with(0))?;
+                    for z in [0usize, 1, 2, 5] {
+                        let wire = crate::c12b::pkt(6, &body_with(z));
+                        let Some(Ok(Packet::PublicKey(k))) = pgp::packet::PacketParser::new(&wire[..]).next() else { if z == 0 { return Err("the canonical key packet does not parse".into()) } else { continue } };
+                        if k.fingerprint().as_bytes() != &want_fp[..] || k.legacy_key_id().as_ref() != &want_id[..] {
+                            return Err(format!("{z} leading zero octet(s): fingerprint {} instead of {}", hex::encode(k.fingerprint().as_bytes()), hex::encode(&want_fp)));
+                        }
+                        let again = Packet::from(k.clone()).to_bytes().map_err(|x| x.to_string())?;
+                        let Some(Ok(Packet::PublicKey(k2))) = pgp::packet::PacketParser::new(&again[..]).next() else { return Err("the re-serialised key does not parse".into()) };
+                        if k2.fingerprint() != k.fingerprint() { return Err(format!("{z} leading zero octet(s): the fingerprint changes after writing the key and reading it again")); }
+                    }
+                    Ok(())
+                });
+                sink.put(rec("c13.encoding_independent", json!({"algorithm": alg}), r.is_ok(), "fingerprint", json!({"outcome": r.class(), "detail": r.detail()})));
+            }
+        }
         sink.raw(json!({"ok": true, "check": "c13.corpus", "note": "key versions seen in the corpus", "versions": seen_versions.lock().unwrap().iter().collect::<Vec<_>>(), "corpus": corpus.len()}));
     }
     sink.finish(json!({"cases": cases.len(), "nontrivial": nontrivial.load(std::sync::atomic::Ordering::Relaxed)}));
